@@ -13,6 +13,7 @@ TRUSTED_BASE = [
 ]
 
 PROPERTY_META = {}
+CJ_ASSUME_LATE = ["cJSON: executable model stubs/cjson_model.h (assumed contract of the vendored library)"]
 NOT_APPLICABLE = {}
 NOTES = ("Every check rebuilds its verification units from /repo's working tree (wrapper TUs include the real "
          "source files; config headers are generated from /repo's templates). Exit 2 + INFRA-ERROR means undecided "
@@ -129,6 +130,13 @@ for _w in range(12):
          unwind=8, defines=["MS_WHICH=%d" % _w], defines_thorough=["MS_PLEN=6", "MS_OLEN=4"], unwind_thorough=10, functions=[_fn],
          expect_tags=["C16.match.function-equals-reference-predicate"], timeout=300, solver="cadical",
          assumes=["libc: CBMC built-in strcmp/strncmp/strlen, assumed models of strstr/strcasestr/strcasecmp/strncasecmp (C locale)"])
+unit("match.parse", ["C16", "C06"], "units/u_fetch_parse.c", entry="h_match_parse", kind="bounded", tier="thorough",
+     bound="rule objects of <= 3 members over 10 adversarial names x 6 JSON types, containsAllOf lists of <= 2 elements",
+     unwind=20, functions=["create_fetch", "alloc_fetch", "add_matchers", "create_matcher", "fill_path_elements", "create_path_matcher", "free_matcher", "free_path_elements", "free_fetch"],
+     expect_tags=["C16.parse.every-matcher-slot-filled", "C16.parse.unknown-name-or-wrong-operand-type-is-refused"], timeout=600, solver="cadical",
+     flags=["--memory-leak-check"], goto_instrument_args=["--value-set-fi-fp-removal"], assumes=CJ_ASSUME_LATE)
+unit("match.conj", ["C16", "C06"], "units/u_fetch_parse.c", entry="h_match_conj", unwind=4, functions=["state_matches"],
+     expect_tags=["C16.conj.selected-iff-every-matcher-accepts"], timeout=300, solver="cadical", goto_instrument_args=["--value-set-fi-fp-removal"])
 unit("match.table", ["C16"], "units/match_fn.c", entry="h_match_table", unwind=16, functions=["matchers[] (rule-name table)"],
      expect_tags=["C16.match.table-names", "C16.match.table-functions"], timeout=120)
 
@@ -166,18 +174,29 @@ unit("ws.unmask", ["C12", "C06"], "units/ws.c", entry="h_ws_unmask", functions=[
 # ------------------------------------------------------------------------------------------
 # C10 outbound streams / C09 inbound segmentation (buffered_socket.c)
 # ------------------------------------------------------------------------------------------
-BS_COMMON = dict(cfg="small8", solver="cadical", unwind=26, mem_gb=24, goto_instrument_args=["--value-set-fi-fp-removal"], kind="proof",
-                 bound="configuration CONFIG_MAX_MESSAGE_SIZE = CONFIG_MAX_WRITE_BUFFER_SIZE = 8 (all loops bounded by the buffer size; unwinding assertions on); frames of <= 2 x 6 bytes",
-                 assumes=["ghost kernel: writev accepts any non-empty prefix or fails with any errno; read delivers any non-empty prefix of the stream, 0 or -1"])
+def cut(fns):
+    """goto-instrument arguments: the listed functions must be unreachable in the unit (body := assert(false))"""
+    a = []
+    for f in fns:
+        a += ["--remove-function-body", f]
+    return a + ["--generate-function-body", "|".join(fns), "--generate-function-body-options", "assert-false-assume-false"]
+
+
+BS_COMMON = dict(cfg="small8", solver="cadical", unwind=10, cbmc_unwindset=["arbitrary_reader_state.0:26", "arbitrary_reader_state.1:10"], mem_gb=24, kind="proof",
+                 bound="configuration CONFIG_MAX_MESSAGE_SIZE = CONFIG_MAX_WRITE_BUFFER_SIZE = 8 (all loops bounded by the buffer size; unwinding assertions on); frames of <= 2 x 6 bytes; input streams of <= 24 bytes",
+                 assumes=["ghost kernel: writev accepts any non-empty prefix or fails with any errno; read delivers any non-empty prefix of the stream, 0 or -1",
+                          "memcpy/memmove/memmem: byte-loop models"])
+BS_WRITE = dict(BS_COMMON, goto_instrument_args=cut(["read_function", "go_reading", "get_read_ptr", "internal_read_until"]) + ["--restrict-function-pointer", "error_function.function_pointer_call.1/stub_error"])
+BS_READ = dict(BS_COMMON, goto_instrument_args=cut(["write_function", "send_buffer", "read_function", "go_reading", "error_function"]))
 unit("bs.writev", ["C10", "C06"], "units/bs.c", entry="h_bs_writev",
      functions=["buffered_socket_writev", "copy_iovec_to_write_buffer", "copy_single_buffer", "send_buffer"],
-     expect_tags=["C10.writev.accepted-frame-sent-or-pending-completely", "C10.writev.bytes-in-generation-order", "C10.writev.refused-frame-leaves-no-byte-behind"], timeout=600, **BS_COMMON)
+     expect_tags=["C10.writev.accepted-frame-sent-or-pending-completely", "C10.writev.bytes-in-generation-order", "C10.writev.refused-frame-leaves-no-byte-behind"], timeout=1200, **BS_WRITE)
 unit("bs.flush", ["C10", "C06"], "units/bs.c", entry="h_bs_flush", functions=["write_function", "send_buffer", "error_function"],
-     expect_tags=["C10.flush.nothing-lost-nothing-duplicated", "C10.flush.bytes-in-order"], timeout=600, **BS_COMMON)
+     expect_tags=["C10.flush.nothing-lost-nothing-duplicated", "C10.flush.bytes-in-order"], timeout=1200, **BS_WRITE)
 unit("bs.read_exactly", ["C09", "C06"], "units/bs.c", entry="h_bs_read_exactly", functions=["get_read_ptr", "fill_buffer", "reorganize_read_buffer"],
-     expect_tags=["C09.exact.hands-out-the-next-stream-bytes-whatever-the-chunking", "C09.exact.buffer-still-mirrors-the-stream"], timeout=600, **BS_COMMON)
+     expect_tags=["C09.exact.hands-out-the-next-stream-bytes-whatever-the-chunking", "C09.exact.buffer-still-mirrors-the-stream"], timeout=1200, **BS_READ)
 unit("bs.read_until", ["C09", "C06"], "units/bs.c", entry="h_bs_read_until", functions=["internal_read_until", "fill_buffer", "reorganize_read_buffer"],
-     expect_tags=["C09.until.hands-out-the-next-stream-bytes", "C09.until.stops-at-the-first-delimiter"], timeout=600, **BS_COMMON)
+     expect_tags=["C09.until.hands-out-the-next-stream-bytes", "C09.until.stops-at-the-first-delimiter"], timeout=1200, **BS_READ)
 
 # ------------------------------------------------------------------------------------------
 # C02 JSON-RPC discipline (response.c, parse.c)
@@ -207,3 +226,88 @@ unit("grp.bits", ["C08", "C06"], "units/u_groups.c", entry="h_grp_bits", functio
 unit("grp.bits.32", ["C08", "C06"], "units/u_groups.c", entry="h_grp_bits", functions=["get_groups"], unwind=34, solver="cadical",
      defines=["G_MAX=32", "G_FULL=1"], kind="proof", bound="exactly 32 registered groups (the maximum), one listed group",
      expect_tags=["C08.grp.bit-j-set-iff-a-listed-name-equals-registered-group-j"], timeout=900, assumes=CJ_ASSUME)
+
+# ------------------------------------------------------------------------------------------
+# property metadata (level, trusted base, what is not decided)
+# ------------------------------------------------------------------------------------------
+HARNESS_NOTE = ("Contracts of this property are PRE/POST pairs checked by hand-instrumented harnesses (assume PRE; snapshot; call the real function; "
+                "assert POST incl. explicit frame assertions) because cbmc's --dfcc instrumentation did not finish on these units; loops have constant bounds "
+                "and are unwound completely (unwinding assertions on).")
+PROPERTY_META["C17"] = {
+    "level": "proof",
+    "level_text": ("Per table order: hashtable_get/put/remove of the real DECLARE_HASHTABLE macro are proved to implement the finite-map operations "
+                   "(lookup of an arbitrary second key unchanged, value most recently stored returned, refusal only when the add range of the key's home is full) "
+                   "and to preserve the representation invariant, from EVERY table state satisfying the invariant, for orders 2 and 3 (uint32 keys) with an "
+                   "uninterpreted hash function (so every collision pattern incl. wrap-around across the table end is covered). " + HARNESS_NOTE),
+    "level_note": ("Proved for table orders 2 and 3 only (order 4+ in the thorough tier as far as it finishes). NOT decided: orders >= 7 where insertion displaces entries "
+                   "(find_closer_entry is proved unreachable for orders <= 6 but its behaviour is not verified), string keys (hash_func_*_string, strcmp), "
+                   "the production orders 6 and 13, the routing-table sweep in router.c. Trusted: CBMC, SAT solver, the hash functions abstracted as uninterpreted."),
+    "explanation": "C17: finite-map contracts on hashtable_get/put/remove/create for small orders.",
+    "not_decided": ["table orders >= 4 (quick tier), >= 7 (displacement path) at all", "string-keyed instantiation", "router.c sweep while removing"],
+    "assumptions": ["hash function = arbitrary function into [0,2^order)", "stored values != (void*)-1 (used as 'absent' marker in the spec)"],
+}
+PROPERTY_META["C16"] = {
+    "level": "other",
+    "level_text": ("Bounded but exhaustive-within-bound: each of the twelve match functions equals a reference predicate written from the statement for every path of <= 4 bytes "
+                   "and operands of <= 3 bytes over all 256 byte values; rule parsing (create_fetch/add_matchers/create_matcher) for every rule object of <= 3 members over an "
+                   "adversarial name set and every operand type; the conjunction state_matches for <= 3 matchers; the name->function table."),
+    "level_note": ("Bounded stand-ins (string lengths, member counts) - not counted as proved. libc string functions are CBMC built-ins or assumed models (C locale); cJSON is an executable model. "
+                   "The configured maximum of matchers (12) is not reached by the 3-member bound."),
+    "explanation": "C16: bounded CBMC checks (unwinding assertions on) of the matcher functions, the rule parser and the conjunction against reference predicates.",
+    "not_decided": ["paths/operands longer than the bound", "more than 3 rule members (incl. the too-many-matchers refusal)", "get_elements' own iteration"],
+}
+PROPERTY_META["C12"] = {
+    "level": "proof",
+    "level_text": ("Loop-free, full-domain harness proofs on the real websocket.c: the frame-header state machine decodes FIN/RSV/opcode/MASK and all three length encodings exactly as RFC 6455 5.2 and requests the "
+                   "mandated next read; ws_handle_frame's outcome equals a decision table written from RFC 6455 5.4/5.5/7.4 and the statement for every flag/opcode/length/fragmentation state and both the daemon's and "
+                   "an arbitrary callback set (never a call through an unset callback); server frames are unmasked, FIN, minimally length-encoded with untouched payload; ping -> pong with identical payload. "
+                   "Unmasking is a bounded check (payload <= 20 bytes x 8 alignments)."),
+    "level_note": ("Not decided: handshake (header callbacks, SHA-1/base64 accept digest), permessage-deflate paths (assumed not negotiated; helpers proved unreachable), client-mode masking, "
+                   "'all segmentations' (inherits C09's reader results), transparency w.r.t. the raw transport beyond 'payload pointer and length handed on unchanged'. "
+                   "The UTF-8 validator is used by its C18 contract (any verdict). " + HARNESS_NOTE),
+    "explanation": "C12: harness-enforced decision-table contracts on ws_get_header..ws_get_mask, ws_get_payload, ws_handle_frame, send_frame, unmask_payload.",
+    "not_decided": ["upgrade handshake and accept digest", "compression", "unmask_payload beyond 20/40 bytes"],
+}
+PROPERTY_META["C10"] = {
+    "level": "proof",
+    "level_text": ("For the configuration CONFIG_MAX_WRITE_BUFFER_SIZE = 8: buffered_socket_writev and the writability flush are proved against a ghost kernel that accepts ANY non-empty prefix or fails with any errno at every call: "
+                   "accepted frames appear on wire ++ pending buffer completely, in generation order, no byte twice (ghost position generalises over all stream positions); refused frames leave nothing behind; the number of kernel calls is bounded "
+                   "(no spinning). WebSocket and raw frame headers: see ws.send. " + HARNESS_NOTE),
+    "level_note": ("Proved for an 8-byte write buffer and frames of <= 2 x 6 bytes (all loops bounded by the buffer size), not for the production 5120 bytes. Kernel behaviour is an assumed contract. "
+                   "Raw-socket length prefix (socket_peer.c) and interleaving with incoming traffic are not covered."),
+    "explanation": "C10: ghost-kernel harness contracts on buffered_socket_writev / write_function / send_buffer / copy_* and send_frame.",
+    "not_decided": ["production buffer size", "socket_peer.c send_message framing", "interleavings with reads"],
+}
+PROPERTY_META["C09"] = {
+    "level": "proof",
+    "level_text": ("For the configuration CONFIG_MAX_MESSAGE_SIZE = 8: get_read_ptr (read exactly n) and internal_read_until are proved, from every reader state that mirrors the input stream and for every way the ghost kernel chunks the stream, "
+                   "to hand out exactly the next n stream bytes / the bytes up to and including the first delimiter, to keep the buffer a mirror of stream[consumed, delivered), and to report too-much-data only for requests above the buffer size. " + HARNESS_NOTE),
+    "level_note": ("Reader level only: the step from 'callback sequence is a function of the stream' to 'daemon output is independent of segmentation' is outside the verifier. Not covered: socket_peer.c message framing, "
+                   "parse_message's use of a NUL-terminated parser on a length-delimited buffer, epoll batch composition. 8-byte buffer configuration, streams <= 24 bytes."),
+    "explanation": "C09: ghost-stream harness contracts on get_read_ptr, internal_read_until, fill_buffer, reorganize_read_buffer.",
+    "not_decided": ["socket_peer.c / parse.c message boundary", "event batching", "production buffer size"],
+}
+PROPERTY_META["C02"] = {
+    "level": "proof",
+    "level_text": ("response.c: every response builder is proved (over the executable cJSON model, every id type and every double) to answer exactly string/number ids with an equal id and exactly one of result/error, to build nothing for other id types, "
+                   "and to own the given result exactly once; no JSON node is left behind."),
+    "level_note": ("Only response construction is covered. The dispatcher (parse.c: one response per request, none for notifications / incoming responses, batch order) and the twelve handlers are NOT covered yet. "
+                   "cJSON is an assumed executable model; id strings <= 3 characters."),
+    "explanation": "C02: harness contracts on create_error_response, create_result_response, *_from_request.",
+    "not_decided": ["parse_json_rpc / parse_json_array dispatch", "handlers' response ownership", "allocation-failure paths (thorough tier, C15)"],
+}
+PROPERTY_META["C08"] = {
+    "level": "proof",
+    "level_text": ("init_peer is proved to leave a new peer without groups, user and name from ARBITRARY (uninitialised) memory; get_groups sets bit j iff a listed name equals registered group j (up to the full 32 groups) and "
+                   "has_access is the non-empty intersection when a credential file is loaded."),
+    "level_note": ("Covered: peer initialisation and the group algebra. NOT covered yet: handle_authentication (failed authentication changes nothing), the checks at fetch/get/set/call, password flow, origin classification. cJSON is an assumed model."),
+    "explanation": "C08: harness contracts on init_peer, get_groups, has_access.",
+    "not_decided": ["authenticate.c", "auth_file.c", "access checks in fetch.c/element.c", "is_localhost"],
+}
+
+# properties whose units are not yet passing within the quick budget are not claimed (see MANIFEST not_applicable)
+PENDING = {"C10": "buffered-socket write-path units (bs.writev, bs.flush) exist but do not yet finish within the quick budget; no claim is made until they do",
+           "C09": "buffered-socket read-path units (bs.read_exactly, bs.read_until) exist but do not yet finish within the quick budget; no claim is made until they do"}
+for _p, _why in PENDING.items():
+    PROPERTY_META.pop(_p, None)
+    NOT_APPLICABLE[_p] = _why
